@@ -4,7 +4,7 @@ CONSTANTS
   ConvDstP = {"", "m", "k", "h", "u", "G", "y"}
   ReadSets = {1}
   Shapes = {"arr", "sc"}
-  BinForms = {"operator", "ufunc", "inplace", "out"}
+  BinForms = {"operator", "ufunc", "inplace", "out", "out0", "out1", "outv0", "outv1"}
   BinOpSet = {"add", "subtract", "maximum", "less", "equal"}
   ConvVias = {"in_units", "convert_to_units", "to_value", "in_base", "convert_to_base"}
   ChainP = {""}
